@@ -60,6 +60,10 @@ def gen_cases(tier, seed):
             lst = a[:4] + ["!" + c for c in a[4:]]
             rnd.shuffle(lst)
         add(kind, lst, False)
+        # every third of these selections is written into a scenario file and run through the yaml entry point instead
+        if k % 3 == 1:
+            cases[-1]["via_yaml"] = True
+            cases[-1]["id"] += "/via_yaml"
     if tier == "thorough":
         add("empty", [], True, workload.base_country())
     # several selections in turn on ONE runner object (as an interactive session or a batch script does): each call's
@@ -153,9 +157,33 @@ def audit_call(case, runner, the_list, kind, rnd):
     lst0 = list(lst)
     try:
         with contextlib.redirect_stdout(io.StringIO()):
-            out = runner.run_model_no_trade(title="agg", create_pptx_with_all_countries=False, show_country_figures=False, show_map_figures=False,
-                                                            add_map_slide_to_pptx=False, scenario_option=opts, countries_list=lst, return_results=True,
-                                            save_all_results=bool(case.get("save_all")) and bool(case["real"]))
+            if case.get("via_yaml"):
+                # the same selection written into a scenario file and run through the yaml entry point (what the shell script and
+                # the web interface call); the entry point returns nothing, so the model call's own return value is recorded
+                from src.scenarios import run_scenarios_from_yaml as ry
+
+                got = []
+                orig_run = ScenarioRunnerNoTrade.run_model_no_trade
+
+                def rec(self, *a, **k):
+                    r = orig_run(self, *a, **k)
+                    got.append(r)
+                    return r
+
+                ScenarioRunnerNoTrade.run_model_no_trade = rec
+                try:
+                    sim = {k: v for k, v in opts.items() if k != "NMONTHS"}
+                    sim["title"] = "agg"
+                    ry.run_scenarios_from_yaml({"settings": {"NMONTHS": opts.get("NMONTHS", 120), "countries": lst}, "simulations": {"only": sim}}, False, False, False)
+                finally:
+                    ScenarioRunnerNoTrade.run_model_no_trade = orig_run
+                if len(got) != 1:
+                    raise RuntimeError("the yaml entry point made %d model calls for one simulation" % len(got))
+                out = got[0]
+            else:
+                out = runner.run_model_no_trade(title="agg", create_pptx_with_all_countries=False, show_country_figures=False, show_map_figures=False,
+                                                add_map_slide_to_pptx=False, scenario_option=opts, countries_list=lst, return_results=True,
+                                                save_all_results=bool(case.get("save_all")) and bool(case["real"]))
     except BaseException as e:  # noqa: BLE001
         if isinstance(e, KeyboardInterrupt):
             raise
@@ -194,10 +222,10 @@ def audit_call(case, runner, the_list, kind, rnd):
         if not (0 <= ratio <= 1 + 1e-12):
             bad("aggregate_ratio_out_of_range", "aggregate fraction fed %.6f outside [0, 1]" % ratio)
     names = sorted(name[i] for i in want)
-    if sorted(results) != names:
+    if sorted(results) != names and not case.get("via_yaml"):  # (the plain yaml mode does not ask for the per-country results)
         bad("results_do_not_match_selection", "returned results hold %d countries, selection has %d (e.g. missing %s)" % (len(results), len(names), sorted(set(names) - set(results))[:3]))
     over = sum(1 for _, f, _ in log if f > 1)
-    return {"viol": viol, "obs": {"kind": kind, "real": case["real"], "selected": len(want), "ran": len(ran), "fractions_above_one": over, "audited": 1,
+    return {"viol": viol, "obs": {"kind": kind, "real": case["real"], "via_yaml": bool(case.get("via_yaml")), "selected": len(want), "ran": len(ran), "fractions_above_one": over, "audited": 1,
                                    "net_pop": net_pop, "net_pop_fed": net_pop_fed, "list_head": lst0[:5], "n_list": len(lst0)}}
 
 
@@ -213,6 +241,7 @@ def summarize(cases, records, tier):
         "countries_aggregated_in_total": int(sum(r["obs"]["ran"] for r in ok)),
         "calls_with_a_fraction_above_one": sum(1 for r in ok if r["obs"]["fractions_above_one"] > 0),
         "failed_calls": [r["obs"].get("failed") for r in records if r.get("status") == "ok" and r["obs"].get("failed")][:5],
+        "selections_run_through_the_yaml_entry_point": sum(1 for r in records if r.get("status") == "ok" and r["obs"].get("via_yaml") and r["obs"].get("audited")),
         "real_calls_with_save_all_results": sum(1 for c, r in zip(cases, records) if c.get("save_all") and r.get("status") == "ok" and r["obs"].get("audited")),
         "calls_with_a_population_override": sum(1 for c, r in zip(cases, records) if "population" in c.get("opts", {}) and r.get("status") == "ok" and r["obs"].get("audited")),
         "sequences_on_one_runner": sum(1 for r in ok if r["obs"]["kind"] == "sequence_on_one_runner"),
